@@ -759,10 +759,50 @@ func c17Replies(c *Ctx, p *Prog) {
 	}
 	bad = ""
 	nf := 0
+	// the failure response written in authRFC1929 itself (a helper method inlined back, or written
+	// out by hand): a buffered Write of the two bytes {1, 1}
+	failWrites := map[ssa.Instruction]bool{}
+	for _, wc := range p.CallsIn(au, "(*bufio.Writer).Write", "(*bufio.ReadWriter).Write", "(bufio.ReadWriter).Write") {
+		args := wc.Common().Args
+		sl, ok := unspill(args[len(args)-1]).(*ssa.Slice)
+		if !ok {
+			continue
+		}
+		al, ok := sl.X.(*ssa.Alloc)
+		if !ok {
+			continue
+		}
+		n, ok := constLen(al.Type())
+		if !ok || n != 2 {
+			continue
+		}
+		vals := map[int64]int64{}
+		for _, r := range *al.Referrers() {
+			if ia, ok := r.(*ssa.IndexAddr); ok {
+				idx, _ := intConst(ia.Index)
+				for _, rr := range *ia.Referrers() {
+					if st, ok := rr.(*ssa.Store); ok {
+						if k, ok := intConst(st.Val); ok {
+							vals[idx] = k
+						} else {
+							vals[idx] = -1
+						}
+					}
+				}
+			}
+		}
+		if vals[0] == 1 && vals[1] == 1 {
+			failWrites[wc] = true
+		}
+	}
 	for _, r := range returnsOf(au) {
 		v := unspill(r.Results[0])
 		call, _ := v.(*ssa.Call)
 		viaClosure := false
+		if !asucc[r] && len(failWrites) > 0 && !entryReachesWithout(au, r, failWrites) {
+			nf++
+			continue
+		}
 		if call != nil {
 			if mc, ok := call.Common().Value.(*ssa.MakeClosure); ok {
 				cl := mc.Fn.(*ssa.Function)
@@ -780,6 +820,9 @@ func c17Replies(c *Ctx, p *Prog) {
 		if !asucc[r] {
 			bad = "failure return at " + p.InstrPos(r) + " does not go through the failure response"
 		}
+	}
+	if len(failWrites) > nf {
+		nf = len(failWrites) // one merged failure return fed by several failure sites
 	}
 	if nf < 5 && bad == "" {
 		bad = fmt.Sprintf("only %d failure paths go through the failure response", nf)
